@@ -34,6 +34,29 @@ fn ulp_candles() -> Vec<Candle> {
 		Candle { open: up(l, 1), high: up(l, 2), low: l, close: up(l, 1), volume: 1.0 },
 		Candle { open: l, high: l, low: l, close: l, volume: 1.0 },
 		alpha::candle(1.0, 1.7, 0.7, 1.3, 0.7),
+		// neighbours of the first one in a single field: sums h+l+c one unit apart that may divide to the same typical price
+		Candle { open: l, high: up(l, 3), low: l, close: up(l, 1), volume: 2.0 },
+		Candle { open: l, high: up(l, 3), low: l, close: up(l, 2), volume: 3.0 },
+		Candle { open: l, high: up(l, 3), low: l, close: up(l, 3), volume: 1.0 },
+	]
+}
+/// the same idea at a price level where the sum h+l+c lies in the upper half of its binade (450 in [256, 512)):
+/// closes two units apart give sums one unit apart that divide to the same typical price
+fn ulp_candles_150() -> Vec<Candle> {
+	let up = |x: ValueType, k: u8| {
+		let mut y = x;
+		for _ in 0..k {
+			y = ValueType::from_bits(y.to_bits() + 1);
+		}
+		y
+	};
+	vec![
+		Candle { open: 150.0, high: 150.5, low: 149.5, close: 150.25, volume: 10.0 },
+		Candle { open: 150.0, high: 150.5, low: 149.5, close: 150.0, volume: 10.0 },
+		Candle { open: 150.0, high: 150.5, low: 149.5, close: up(150.0, 2), volume: 5.0 },
+		Candle { open: 150.0, high: 150.5, low: 149.5, close: up(150.0, 4), volume: 5.0 },
+		Candle { open: 150.0, high: 150.5, low: 149.5, close: up(150.0, 6), volume: 2.0 },
+		Candle { open: 150.0, high: 150.5, low: 149.5, close: 149.9, volume: 10.0 },
 	]
 }
 
@@ -449,10 +472,10 @@ fn main() {
 			}
 		}
 		let spans: Vec<usize> = cfgs.iter().map(|c| span_of(c.as_ref()).min(60)).collect();
-		for (tag, al) in [("rounding-active", r_candles()), ("dyadic", alpha::k_candles()), ("ulp-spreads", ulp_candles())] {
+		for (tag, al) in [("rounding-active", r_candles()), ("dyadic", alpha::k_candles()), ("ulp-spreads", ulp_candles()), ("ulp-spreads-150", ulp_candles_150())] {
 			let few = cfgs.len() <= 14;
 			// (thorough used 5 / 3 everywhere at first: more than an hour, with 600 s caps hit)
-			let d1 = if tag == "ulp-spreads" {
+			let d1 = if tag.starts_with("ulp-spreads") {
 				if thorough && is_mon { 3 } else { 2 }
 			} else if is_mon {
 				if thorough { if few { 5 } else { 4 } } else if few && tag == "rounding-active" { 4 } else if few || tag == "rounding-active" { 3 } else { 2 }
@@ -461,7 +484,7 @@ fn main() {
 			} else {
 				2
 			};
-			let sys = RangeSys { name: format!("{name}/regimes/{tag}"), cfgs: cfgs.iter().map(|c| c.boxed_clone()).collect(), spans: spans.clone(), alphabet: al, d1, d3: if thorough && few && tag != "ulp-spreads" { 3 } else { 2 } };
+			let sys = RangeSys { name: format!("{name}/regimes/{tag}"), cfgs: cfgs.iter().map(|c| c.boxed_clone()).collect(), spans: spans.clone(), alphabet: al, d1, d3: if thorough && few && !tag.starts_with("ulp-spreads") { 3 } else { 2 } };
 			h.go(&sys, &Limits::depth(20).wall_secs(600), true);
 		}
 	}
